@@ -207,6 +207,30 @@ func famDesc(g *gen, e *emitter, n int) {
 		lv := levels[g.r.Intn(len(levels))]
 		e.emit(caseSpec{family: "desc", text: g.pick("", "strict ") + "$.**" + lv + g.pick(tails...), doc: doc})
 	}
+	// a descent inside the condition of a filter that itself follows a descent (or a wildcard) and is
+	// followed by an accessor: whatever the inner traversal does to the executor's state (the
+	// structural-error flag, the level bookkeeping) must be undone before the outer accessor runs
+	inner := []string{"exists(@.**%s.a)", "@.**%s.a == 1", "@.**%s[0] == 1", "exists(@.**%s ? (@.a == 1))", "@.**%s.b.a == 1", "exists(@.**%s.*)"}
+	outer := []string{"$.**", "$.**{1}", "$.**{1 to 2}", "$.**{0 to last}", "$.*", "$[*]", "$.a.**", "$"}
+	otails := []string{".a", ".b", "[0]", ".*", "[*]", "", ".a.b", ".**{1}.a"}
+	for i := 0; i < 600; i++ {
+		// nested containers over a two-key alphabet, so that the accessors fit often
+		dt := g.docText(4+g.r.Intn(2), false)
+		for try := 0; try < 30 && (len(dt) < 40 || (dt[0] != '{' && dt[0] != '[')); try++ {
+			dt = g.docText(4+g.r.Intn(2), false)
+		}
+		dt = strings.NewReplacer(`"c":`, `"a":`, `"key":`, `"b":`, `"value":`, `"a":`, `"id":`, `"b":`).Replace(dt)
+		doc := mustDoc(dt, false)
+		cond := fmt.Sprintf(inner[g.r.Intn(len(inner))], levels[g.r.Intn(len(levels))])
+		if g.r.Intn(4) == 0 {
+			cond = cond + g.pick(" && ", " || ") + fmt.Sprintf(inner[g.r.Intn(len(inner))], levels[g.r.Intn(len(levels))])
+		}
+		mode := "strict "
+		if g.r.Intn(4) == 0 {
+			mode = ""
+		}
+		e.emit(caseSpec{family: "desc", text: mode + g.pick(outer...) + " ? (" + cond + ")" + g.pick(otails...), doc: doc})
+	}
 }
 
 // ---- C12: comparisons over a value corpus ----
